@@ -10,11 +10,12 @@ use bytes::Bytes;
 use domain::base::iana::{Class, Rcode, SecurityAlgorithm};
 use domain::base::name::Name;
 use domain::base::{Message, MessageBuilder, Rtype, Serial, Ttl};
-use domain::net::client::cache;
+use crate::core::net::{addr, DgConnectPlan, DgramFaults, SimDgConnector, UdpNet};
+use domain::net::client::{cache, dgram};
 use domain::net::client::request::{ComposeRequest, Error, GetResponse, RequestMessage, SendRequest};
 use domain::rdata::dnssec::{RtypeBitmap, Timestamp};
 use domain::rdata::{Cname, Ns, Nsec, Rrsig, Soa, Txt, A};
-use std::cell::RefCell;
+use std::cell::{Cell, RefCell};
 use std::future::Future;
 use std::net::Ipv4Addr;
 use std::pin::Pin;
@@ -73,6 +74,8 @@ struct UpState {
 #[derive(Clone)]
 struct UpstreamStub {
     st: Arc<Mutex<UpState>>,
+    /// Some: requests go to the upstream over this transport.
+    via: Option<Arc<dgram::Connection<SimDgConnector>>>,
 }
 
 struct UpReq {
@@ -109,11 +112,48 @@ fn ttl_draw(label: &'static str) -> u32 {
     *sim::pick(label, &TTLS)
 }
 
+/// When the last client is done the upstream's peer task goes, too.
+struct LastOneOut(Rc<Cell<usize>>, Exec, Option<usize>);
+
+impl Drop for LastOneOut {
+    fn drop(&mut self) {
+        self.0.set(self.0.get() - 1);
+        if let (0, Some(id)) = (self.0.get(), self.2) {
+            self.1.cancel(id);
+        }
+    }
+}
+
+thread_local! {
+    /// The run's upstream sits behind a real datagram transport.
+    static NET_MODE: Cell<bool> = const { Cell::new(false) };
+}
+
 impl SendRequest<RequestMessage<Vec<u8>>> for UpstreamStub {
     fn send_request(&self, req: RequestMessage<Vec<u8>>) -> Box<dyn GetResponse + Send + Sync> {
+        if let Some(via) = &self.via {
+            return via.send_request(req);
+        }
         let st = self.st.clone();
         let fut = async move {
             let msg = req.to_message().expect("request message");
+            // Upstream latency (virtual).
+            let lat = sim::draw("up.latency_ms", 40);
+            if lat > 0 {
+                tokio::time::sleep(Duration::from_millis(lat)).await;
+                sim::sync_clock();
+            }
+            upstream_answer(&st, &msg)
+        };
+        Box::new(UpReq {
+            fut: Some(Box::pin(SyncFut(Box::pin(fut)))),
+        })
+    }
+}
+
+/// What the upstream says to `msg`; logged as said at this moment.
+fn upstream_answer(st: &Arc<Mutex<UpState>>, msg: &Message<Vec<u8>>) -> Result<Message<Bytes>, Error> {
+        {
             let h = msg.header();
             let q = msg.first_question().expect("question");
             let qname_s = format!("{}", q.qname());
@@ -124,12 +164,6 @@ impl SendRequest<RequestMessage<Vec<u8>>> for UpstreamStub {
                 ad: h.ad(),
                 dnssec_ok: msg.opt().is_some_and(|o| o.dnssec_ok()),
             };
-            // Upstream latency (virtual).
-            let lat = sim::draw("up.latency_ms", 40);
-            if lat > 0 {
-                tokio::time::sleep(Duration::from_millis(lat)).await;
-                sim::sync_clock();
-            }
             let faulty = st.lock().unwrap().faulty;
             let class = if faulty {
                 *sim::pick(
@@ -147,7 +181,9 @@ impl SendRequest<RequestMessage<Vec<u8>>> for UpstreamStub {
                         RespClass::Weird,
                         RespClass::MiscError,
                         RespClass::Truncated,
-                        RespClass::TransportError,
+                        // (Behind a real transport the upstream has no way
+                        // of returning an error value.)
+                        if NET_MODE.with(|c| c.get()) { RespClass::MiscError } else { RespClass::TransportError },
                     ],
                 )
             } else {
@@ -157,7 +193,7 @@ impl SendRequest<RequestMessage<Vec<u8>>> for UpstreamStub {
                 let g = st.lock().unwrap();
                 0x0200_0000 + g.log.len() as u32
             };
-            let res = build_response(&msg, &qname_s, q.qtype(), flags, class, serial);
+            let res = build_response(msg, &qname_s, q.qtype(), flags, class, serial);
             let view = res.as_ref().ok().map(|m| dns::view(m.as_slice()).expect("stub response parses"));
             ev!(
                 "upstream #{:x} {} {} {} {:?} -> {:?}{}",
@@ -198,11 +234,7 @@ impl SendRequest<RequestMessage<Vec<u8>>> for UpstreamStub {
                 view,
             });
             res
-        };
-        Box::new(UpReq {
-            fut: Some(Box::pin(SyncFut(Box::pin(fut)))),
-        })
-    }
+        }
 }
 
 /// A positive answer of more than 16 KiB, written with name compression: the
@@ -272,7 +304,7 @@ fn build_response(req: &Message<Vec<u8>>, qname: &str, qtype: Rtype, flags: Flag
     if class == RespClass::TransportError {
         return Err(Error::StreamReadTimeout);
     }
-    if class == RespClass::Positive && qtype == Rtype::A && sim::chance("up.big", 1, 20) {
+    if class == RespClass::Positive && qtype == Rtype::A && !NET_MODE.with(|c| c.get()) && sim::chance("up.big", 1, 20) {
         if let Some(m) = build_big_response(req, qname, flags, serial) {
             return Ok(m);
         }
@@ -765,12 +797,12 @@ impl Scenario for CacheScn {
     }
     fn components(&self) -> (Vec<&'static str>, Vec<&'static str>) {
         (
-            vec!["net::client::cache::{Connection, Config}", "moka::future::Cache", "base::Message / MessageBuilder", "tokio paused clock"],
+            vec!["net::client::cache::{Connection, Config}", "moka::future::Cache", "base::Message / MessageBuilder", "tokio paused clock", "net::client::dgram::Connection between the cache and the upstream (one run in eight, over the simulated datagram network)"],
             vec!["upstream transport (SendRequest stub producing uniquely serialised responses)", "clients", "history oracle (aged-copy relation, RFC 2308 classification)"],
         )
     }
     fn rule(&self) -> &'static str {
-        "1-4 client tasks issue up to 60 queries over 4 names x case variants x {A,TXT,RRSIG} x all RD/CD/AD/DO combinations with virtual gaps from 0 s to beyond every configured bound; the upstream stub answers each call with a uniquely serialised response of a drawn class (positive, CNAME, NODATA, NXDOMAIN with/without SOA, delegation, weird, error rcode, TC, transport failure) and TTLs from {0,1,5,30,60,3600,700000}; cache configuration (all seven bounds, cache_truncated, max entries down to 1) drawn per run; 25% of runs use only well-formed cacheable classes."
+        "1-4 client tasks issue up to 60 queries over 4 names x case variants x {A,TXT,RRSIG} x all RD/CD/AD/DO combinations with virtual gaps from 0 s to beyond every configured bound; the upstream stub answers each call with a uniquely serialised response of a drawn class (positive, CNAME, NODATA, NXDOMAIN with/without SOA, delegation, weird, error rcode, TC, transport failure) and TTLs from {0,1,5,30,60,3600,700000}; cache configuration (all seven bounds, cache_truncated, max entries down to 1; values outside the documented ranges, too) drawn per run; 25% of runs use only well-formed cacheable classes. One request in twelve is no query (NOTIFY/UPDATE/STATUS); one positive A answer in twenty is larger than 16 KiB with a name first written at offset 0x3FFF-0x4001 and used again; one run in eight the upstream is a peer behind the real datagram transport and a stray REFUSED with the request's ID and another question may arrive ahead of an answer."
     }
     fn assumptions(&self) -> Vec<&'static str> {
         vec![
@@ -825,13 +857,61 @@ async fn run(_tier: Tier) {
     c.set_cache_truncated(cfg.cache_truncated);
     c.set_max_cache_entries(cfg.max_entries);
 
-    let up = UpstreamStub {
-        st: Arc::new(Mutex::new(UpState { log: Vec::new(), faulty })),
+    // One run in eight the cache sits on the real datagram transport and the
+    // upstream is a peer on the simulated network. Now and then a datagram
+    // that is no answer to the request - right ID, another question, an
+    // error code - arrives ahead of the answer (a late reply to somebody
+    // else, a forgery): not something the upstream returned for the question.
+    let net_mode = sim::chance("up.behind_a_real_transport", 1, 8);
+    NET_MODE.with(|c| c.set(net_mode));
+    let exec = Exec::new();
+    let st = Arc::new(Mutex::new(UpState { log: Vec::new(), faulty }));
+    let mut peer_task = None;
+    let via = if net_mode {
+        sim::stat("probe.upstream_behind_the_datagram_transport");
+        let udp = UdpNet::new();
+        let sock = udp.bind(addr(100, 53));
+        let st = st.clone();
+        let h = exec.spawn("upstream-peer", async move {
+            loop {
+                let (data, from) = sock.recv_from().await;
+                let Ok(msg) = Message::from_octets(data) else { continue };
+                let lat = sim::draw("up.latency_ms", 40);
+                if lat > 0 {
+                    tokio::time::sleep(Duration::from_millis(lat)).await;
+                    sim::sync_clock();
+                }
+                if faulty && sim::chance("net.stray_error_datagram", 1, 3) {
+                    sim::stat("fault.stray_error_datagram_ahead_of_the_answer");
+                    let mut mb = MessageBuilder::new_vec();
+                    mb.header_mut().set_id(msg.header().id());
+                    mb.header_mut().set_qr(true);
+                    mb.header_mut().set_rcode(Rcode::REFUSED);
+                    let mut qb = mb.question();
+                    qb.push((dns::name("other.example.net."), Rtype::AAAA)).unwrap();
+                    ev!("a stray REFUSED for other.example.net. AAAA with the request's ID arrives");
+                    sock.send_exact(from, qb.finish(), 0);
+                    // (It gets there first.)
+                    tokio::time::sleep(Duration::from_millis(1)).await;
+                    sim::sync_clock();
+                }
+                if let Ok(resp) = upstream_answer(&st, &msg) {
+                    sock.send_exact(from, resp.as_slice().to_vec(), 0);
+                }
+            }
+        });
+        peer_task = Some(h);
+        let planner: Arc<dyn Fn(usize) -> DgConnectPlan + Send + Sync> = Arc::new(|_| DgConnectPlan::default());
+        Some(Arc::new(dgram::Connection::new(SimDgConnector::new(&udp, 1, addr(100, 53), DgramFaults::default(), planner))))
+    } else {
+        None
     };
+    let up = UpstreamStub { st, via };
     let conn = Rc::new(cache::Connection::with_config(up.clone(), c));
     let queries: Rc<RefCell<Vec<Query>>> = Rc::new(RefCell::new(Vec::new()));
-    let exec = Exec::new();
     let n_clients = 1 + sim::draw("n_clients", 4) as usize;
+    let clients_left = Rc::new(Cell::new(n_clients));
+    let peer_id = peer_task.as_ref().map(|h| h.id);
     // Focus of this run: few names/types/flag bits make cache hits (and
     // flag-lattice fallbacks) frequent; wide runs exercise eviction.
     let n_names = 1 + sim::draw("focus.names", 4);
@@ -844,7 +924,9 @@ async fn run(_tier: Tier) {
         k += n;
         let conn = conn.clone();
         let queries = queries.clone();
+        let (clients_left, exec2) = (clients_left.clone(), exec.clone());
         exec.spawn(format!("client{}", ci), async move {
+            let _last_one_out = LastOneOut(clients_left, exec2, peer_id);
             for k in ks {
                 // Gap before the query.
                 let gap_s: u64 = match sim::draw("gap.kind", 10) {
